@@ -17,6 +17,13 @@ CHECKS = {
    design_ref="DESIGN.md §2 C19",
    note="trusted: CompactSize model of elements' consensus_encode, iterator-collect model, core integer helper models, rustc MIR, z3/cvc5; outside: stacks >= 4 GiB, costs above CONSENSUS_MAX On a changed tree, a group of obligations whose function the MIR encoder cannot express is printed as `UNEXPLORED: property=<id> ...`, recorded under coverage.unexplored, and does not affect the exit status (none on the unchanged tree)."),
 
+ "C05": dict(
+   technique="two solver engines over the real code: (1) region symbolic execution of BitMachine::exec_with_tracker's per-combinator dispatch from rustc MIR into SMT (z3 + cvc5 must agree) against the Bit Machine's reference instruction sequences, for all type widths; (2) Kani 0.68 -> CBMC 6.11 bounded model checking of the frame micro-operations on symbolic memory at symbolic bit offsets",
+   category="model_checking",
+   text="Two layers, both solver-decided. Interpreter step: for every core combinator (iden, unit, injl, injr, take, drop, pair, comp, case, assertl, assertr, disconnect, witness, word, fail) the loop-free dispatch region of exec_with_tracker, executed from MIR with the node's and children's types as symbolic 64-bit widths related only by the combinator's typing rule, has exactly the effect the Bit Machine semantics prescribe (which bits are written/copied at which cursor positions, final cursor positions, frames allocated/moved/dropped, entries pushed on the call stack incl. Back/CopyFwd amounts; Final::bit_width/pad_left/pad_right executed from their own MIR), never panics on a well-typed node, and assertions/fail return their error. Micro-operations: on a machine over 5-10 symbolic bytes with every frame at every bit alignment, write_bit/skip/write_u8/write_bytes/copy(0..17 bits; thorough 0..33)/fwd/back/read_bit/peek and the frame iterators move exactly the right bits and nothing else, and the instruction sequences of comp, pair+take/drop, case under drop, injl/injr and disconnect deliver the right bits and restore the frame stacks. NOT covered: the outer loop that pops the call stack (CallStack entries are executed as pushed), the exit path that decodes the output frame, jets and exec_jet (C FFI), Value::from_padded_bits / iter_padded at program level (C10), whole-program runs under the solver (out of reach, DESIGN.md 1.4). A native family of 105 programs (real Bit Machine vs an independent big-step evaluator) validates the reference sequences on every run and replays solver counterexamples.",
+   design_ref="DESIGN.md §2 C05",
+   note="trusted: the reference instruction sequences (transcribed from the Simplicity technical report's Bit Machine, validated natively on every run), the models of the micro-operations as trace events in the MIR layer (their real code is what the Kani layer checks), Kani/CBMC, rustc MIR, z3/cvc5. An arm whose effect has a different shape from the reference (not just different amounts) is printed as `UNEXPLORED: property=C05 ...`, recorded under coverage.unexplored, and does not affect the exit status (none on the unchanged tree)."),
+
  "C07": dict(
    technique="MIR->SMT symbolic execution of NodeBounds::*, LimitError::check_program and BitMachine::for_program (z3 + cvc5 must agree), inductive step per combinator against a recurrence model of the interpreter's peak usage",
    category="model_checking",
@@ -53,7 +60,6 @@ CHECKS = {
 
 NOT_APPLICABLE = {
  "C01": "whole-program encode/decode round trips walk Arc/Vec/HashMap structures with symbolic control that CBMC cannot execute in reach (a 2-bit Value's compact iterator exhausts 62 GB, DESIGN.md 1.4); node-level framing harnesses (kani-harness/src/c01.rs, `vcheck.py C01`) exist but did not finish within budget, so nothing is claimed",
- "C05": "needs the Bit Machine on symbolic inputs: its Vec<CallStack>/Vec<Frame> loops and every Value operation fall in the class that exhausts memory under CBMC (measured); resource arithmetic is covered under C07, bit kernels under C10/C13",
  "C09": "root computation over converted node forms (Node::convert, finalize, Hiding) walks Arc/Vec worklists out of CBMC's reach; distinct-structure => distinct-root is collision resistance of SHA-256",
  "C12": "needs finalize_unpruned/prune/decode on programs with symbolic witnesses: type inference, Node::convert and Value are out of CBMC's reach (measured); a defect seen natively (ill-typed construction-time witness accepted, later panic) cannot be demonstrated by a check and is only recorded in DESIGN.md",
  "C18": "the iterators keep their worklist in a Vec whose length depends on the (symbolic) graph: typed stores at symbolic offsets into byte-array heap objects make CBMC's formula explode - post-order over all 3-node DAGs did not finish in 15 min, pre-order in 10; a concrete graph would be enumeration of runs. Harnesses kept in kani-harness/src/c18.rs (`vcheck.py C18`)",
@@ -80,7 +86,7 @@ def main():
                 "thorough_cmd": "python3-vt vcheck.py %s --tier thorough" % pid,
                 "evidence_file": "evidence/%s.json" % pid,
                 "replay_cmd_template": "python3-vt vcheck.py %s --replay {path}" % pid,
-                "engine": "kani-cbmc" if "Kani" in c["technique"] and "MIR->SMT" not in c["technique"] else "mir2smt",
+                "engine": "kani-cbmc" if "Kani" in c["technique"] and "MIR->SMT" not in c["technique"] and pid != "C05" else "mir2smt",
                 "level_claimed": {"category": c["category"], "text": c["text"], "design_ref": c["design_ref"]},
                 "level_note": c["note"],
                 "technique": c["technique"],
@@ -106,8 +112,8 @@ def main():
         "engines": [
             {"name": "kani-cbmc", "path": "vlib/kani.py + kani-harness/", "serves_properties": [p for p in CHECKS if "MIR->SMT" not in CHECKS[p]["technique"]],
              "kind_free_text": "Kani 0.68.0 compiler -> goto binaries -> CBMC 6.11.0 bounded model checking with CaDiCaL; own driver for per-loop unwindsets, parallelism, classification and native replay"},
-            {"name": "mir2smt", "path": "vlib/mir2smt.py + vlib/mircheck.py", "serves_properties": [p for p in CHECKS if "MIR->SMT" in CHECKS[p]["technique"]],
-             "kind_free_text": "symbolic execution of rustc nightly MIR of loop-free integer kernels into bit-vector SMT; z3 + cvc5 cross-checked; native replay binary"},
+            {"name": "mir2smt", "path": "vlib/mir2smt.py + vlib/mircheck.py", "serves_properties": [p for p in CHECKS if "MIR->SMT" in CHECKS[p]["technique"] or p == "C05"],
+             "kind_free_text": "symbolic execution of rustc nightly MIR of loop-free integer kernels and loop-free regions (vlib/c05arms.py) into bit-vector SMT; z3 + cvc5 cross-checked; native replay binary"},
         ],
         "checks": checks,
         "not_applicable": na,
